@@ -120,7 +120,15 @@ def coq_attr(x):
     return "None" if x is None else "(Some (%d)%%Z)" % x
 
 
-def gen_terms(rng):
+def gen_terms(rng, allow_special=True):
+    r = rng.random()
+    if allow_special and r < 0.22:
+        return []                                                   # FermionOperator(): the empty accumulator
+    if allow_special and r < 0.30:
+        t = tuple((rng.randrange(4), rng.randrange(2)) for _ in range(rng.choice([1, 2])))
+        return [[[list(f) for f in t], [0, 1, 0, 1, rng.choice(["int", "float"])]]]       # a zero coefficient
+    if allow_special and r < 0.38:
+        return [[[], rand_scalar(rng, allow_zero=False)]]           # constant only
     n = rng.choice([1, 1, 2, 2, 3])
     out, seen = [], set()
     for _ in range(n):
@@ -135,15 +143,18 @@ def gen_terms(rng):
 
 def gen_chain(rng, tier):
     ops = []
-    kinds = []        # class of each object that will exist (when every operation succeeds)
-    n0 = rng.choice([2, 2, 3])
+    kinds = []        # one entry per object that will exist when every operation succeeds and is pure
+    n0 = rng.choice([2, 3, 3, 4])
     attr_pool = [[None, None, None], [None, None, None], [4, 2, 0], [4, 2, 0], [6, 2, 0]]
-    for _ in range(n0):
+    at0 = rng.choice(attr_pool)
+    for k in range(n0):
         c = rng.choice(["Tg", "Tg", "Tg", "Of"])
-        at = rng.choice(attr_pool) if c == "Tg" else [None, None, None]
-        ops.append(["new", c, at, gen_terms(rng)])
+        # most chains keep one attribute set so that accumulations succeed; some mix them (documented errors)
+        at = (at0 if rng.random() < 0.8 else rng.choice(attr_pool)) if c == "Tg" else [None, None, None]
+        terms = [] if (k == 0 and rng.random() < 0.5) else gen_terms(rng)
+        ops.append(["new", c, at, terms])
         kinds.append(c)
-    n_ops = rng.randint(2, 6 if tier == "quick" else 9)
+    n_ops = rng.randint(3, 7 if tier == "quick" else 10)
 
     def operand(allow_scalar=True):
         r = rng.random()
@@ -152,18 +163,30 @@ def gen_chain(rng, tier):
         if r < 0.96:
             return ["num", rand_scalar(rng)]
         return ["none"]
+
+    def target():
+        # in-place operations prefer recent results and the (often empty) first object: an aliased result
+        # only shows when it is modified later
+        r = rng.random()
+        if r < 0.45:
+            return len(kinds) - 1
+        if r < 0.65:
+            return 0
+        return rng.randrange(len(kinds))
     for _ in range(n_ops):
         r = rng.random()
-        if r < 0.70:
+        if r < 0.45:
             x = operand()
             y = operand()
             if x[0] != "obj" and y[0] != "obj":
                 y = ["obj", rng.randrange(len(kinds))]
-            ops.append(["bin", rng.choice(["Add", "Sub", "Mul"]), x, y])
+            ops.append(["bin", rng.choice(["Add", "Add", "Sub", "Mul"]), x, y])
             kinds.append("?")
-        elif r < 0.85:
-            ops.append(["iop", rng.choice(["Add", "Sub", "Mul"]), rng.randrange(len(kinds)), operand()])
-        elif r < 0.93:
+        elif r < 0.80:
+            ops.append(["iop", rng.choice(["Add", "Add", "Sub", "Mul"]), target(), operand()])
+        elif r < 0.88:
+            ops.append(["idiv", target()])
+        elif r < 0.94:
             ops.append(["neg", rng.randrange(len(kinds))])
             kinds.append("?")
         else:
@@ -253,6 +276,7 @@ def run_chain_impl(ops):
                 continue
         snaps = [show_fobj(o) for o in store]
         refs = [ref_terms(o) for o in store]
+        shared_before = {(id(a_), id(b_)) for a_ in store for b_ in store if a_ is not b_ and a_.terms is b_.terms}
         out, res = "Ok", None
         method, pure_idx, left_idx, expect = None, [], None, None
         try:
@@ -306,6 +330,14 @@ def run_chain_impl(ops):
                     res -= vy
                 else:
                     res *= vy
+            elif k == "idiv":
+                i = op[1] % len(store)
+                mops.append("(OIop Mul %s (VNum (cyq 1 2 0 1)))" % coq_nat(i))      # x /= 2 is x *= 1.0 / 2
+                method = ("FermionOperator/" if isinstance(store[i], TF) else "openfermion.FermionOperator/") + "itruediv"
+                pure_idx, left_idx = [], i
+                expect = ref_binop("Mul", refs[i], (Fraction(1, 2), Fraction(0)))
+                res = store[i]
+                res /= 2
             elif k in ("neg", "half"):
                 i = op[1] % len(store)
                 mops.append("(%s %s)" % ("ONeg" if k == "neg" else "OHalf", coq_nat(i)))
@@ -335,7 +367,24 @@ def run_chain_impl(ops):
         # ---------------- property oracle on the implementation
         after = [show_fobj(o) for o in store]
         aliased = k == "bin" and op[2][0] == "obj" and op[3][0] == "obj" and op[2][1] % len(snaps) == op[3][1] % len(snaps)
-        inplace = k == "iop"
+        inplace = k in ("iop", "idiv")
+        if k == "idiv":
+            k, op = "iop", ["iop", "Mul", op[1], ["num", [1, 2, 0, 1, "float"]]]
+        # every live object that is not an operand of this step must be untouched: a change means that a
+        # result of an earlier step shares state with it
+        touched = set(pure_idx) | ({left_idx} if left_idx is not None else set())
+        for j in range(len(snaps)):
+            if j not in touched and after[j] != snaps[j]:
+                findings.append(("C16/%s/bystander-mutated" % method,
+                                 "%s on operands %s changed object #%d, which is not an operand (shared state with an "
+                                 "earlier result): %s -> %s" % (method, sorted(touched), j, snaps[j], after[j])))
+        # no two live objects may share their term dictionary
+        for a_ in range(len(store)):
+            for b_ in range(a_ + 1, len(store)):
+                if store[a_].terms is store[b_].terms and (id(store[a_]), id(store[b_])) not in shared_before:
+                    findings.append(("C16/%s/terms-dictionary-shared" % method,
+                                     "after %s objects #%d and #%d are different objects with the SAME terms dictionary "
+                                     "(a later in-place operation on one changes the other)" % (method, a_, b_)))
         for j in sorted(set(pure_idx)):
             if j < len(snaps) and after[j] != snaps[j]:
                 # which side of the expression was it?
@@ -563,6 +612,310 @@ def run_qubitham(ck, variants):
                          {"kind": "qubitham", "case": md, "impl": g, "model": m}, found_input=False)
 
 
+# ------------------------------------------------------------------------------------------ qubit chains
+_P1 = {("X", "Y"): ("Z", 1), ("Y", "X"): ("Z", 3), ("Y", "Z"): ("X", 1), ("Z", "Y"): ("X", 3),
+       ("Z", "X"): ("Y", 1), ("X", "Z"): ("Y", 3)}
+_IPOW = [(Fraction(1), Fraction(0)), (Fraction(0), Fraction(1)), (Fraction(-1), Fraction(0)), (Fraction(0), Fraction(-1))]
+
+
+def ref_wmul(w1, w2):
+    """independent reference: product of two Pauli words (tuples of (qubit, letter) sorted by qubit) -> (word, i-exponent)"""
+    d = dict(w1)
+    e = 0
+    for q, p in w2:
+        if q not in d:
+            d[q] = p
+        elif d[q] == p:
+            del d[q]
+        else:
+            r, k = _P1[(d[q], p)]
+            d[q] = r
+            e += k
+    return tuple(sorted(d.items())), e % 4
+
+
+def ref_words_commute(w1, w2):
+    d = dict(w1)
+    return sum(1 for q, p in w2 if q in d and d[q] != p) % 2 == 0
+
+
+def ref_qbinop(op, x, y):
+    dx, dy = isinstance(x, dict), isinstance(y, dict)
+    if op == "Mul" and dx and dy:
+        out = {}
+        for s_, a in x.items():
+            for t_, b in y.items():
+                w, e = ref_wmul(s_, t_)
+                out[w] = cadd(out.get(w, (0, 0)), cmul(_IPOW[e], cmul(a, b)))
+        return nz(out)
+    return ref_binop(op, x, y)
+
+
+def qsnap(o):
+    return [(t, frac2(v)) for t, v in o.terms.items()]
+
+
+def run_qubit_chains(ck, n):
+    """Accumulation chains on QubitOperator / QubitHamiltonian objects (Tangelo and openfermion), started from
+    empty operators most of the time; implementation-only oracle: exact reference values, snapshots of EVERY
+    live object after EVERY step, no two objects sharing a terms dictionary."""
+    import openfermion as of
+    from tangelo.toolboxes.operators import QubitOperator as TQ, QubitHamiltonian as QH
+    rng = ck.rng
+    ck.stream("qubit-chains", "chains of 3-8 operations (+ - * binary, += -= *= /= in place, scalars on either side) over a store "
+              "of QubitOperator / openfermion QubitOperator / QubitHamiltonian (bare and annotated) objects, first object empty in "
+              "half of the chains, zero-coefficient and constant-only operators included; exact reference values (independent Pauli "
+              "product), every live object snapshotted after every step, term dictionaries never shared; non-trivial = an in-place "
+              "operation on a result of an earlier step")
+    label = {"TQ": "QubitOperator", "OQ": "openfermion.QubitOperator", "QH": "QubitHamiltonian", "QHA": "QubitHamiltonian"}
+
+    def mk(c, terms):
+        o = {"TQ": TQ, "OQ": of.QubitOperator, "QH": QH}[c]() if c != "QHA" else QH(mapping="JW", up_then_down=False)
+        o.terms = dict(terms)
+        return o
+
+    def kind_of(o):
+        if isinstance(o, QH):
+            return "QHA" if o.mapping is not None else "QH"
+        return "TQ" if isinstance(o, TQ) else "OQ"
+    for ci in range(n):
+        nq = rng.randint(1, 3)
+        fam = rng.choice([["TQ"], ["TQ"], ["OQ"], ["QH"], ["QHA"], ["QHA", "TQ"], ["QH", "OQ"], ["TQ", "OQ"], ["QHA", "QH"]])
+        spec = []
+        store = []
+        for k in range(rng.choice([2, 3, 3])):
+            c = fam[0] if k == 0 else rng.choice(fam)
+            r = rng.random()
+            if (k == 0 and r < 0.55) or r < 0.2:
+                terms = {}
+            elif r < 0.3:
+                terms = {tuple((q, rng.choice("XYZ")) for q in sorted(rng.sample(range(nq), 1))): 0.0}
+            elif r < 0.4:
+                terms = {(): make_scalar(rand_scalar(rng, allow_zero=False)[:4] + ["complex"])}
+            else:
+                terms = gen_qterms(rng, nq)
+            spec.append([c, canon_qterms(terms)])
+            store.append(mk(c, terms))
+        trace = []
+        results = set()
+        nontriv = False
+        n_ops = rng.randint(3, 8)
+        for step in range(n_ops):
+            r = rng.random()
+            i = rng.choice([0, len(store) - 1, rng.randrange(len(store))])
+            j = rng.randrange(len(store))
+            sc = rand_scalar(rng)
+            scal = make_scalar(sc[:4] + ["float" if sc[4].startswith("np") else sc[4]])
+            use_scalar = rng.random() < 0.3
+            if r < 0.45:
+                kind, o = "bin", rng.choice(["Add", "Add", "Sub", "Mul"])
+            elif r < 0.9:
+                kind, o = "iop", rng.choice(["Add", "Add", "Sub", "Mul"])
+            else:
+                kind, o = "idiv", "Mul"
+            x, y = store[i], (scal if use_scalar else store[j])
+            if kind == "idiv":
+                y, use_scalar = 2, True
+            if kind == "bin" and use_scalar and rng.random() < 0.5:
+                x, y = y, x                                   # scalar on the left
+            xo, yo = hasattr(x, "terms"), hasattr(y, "terms")
+            if o == "Mul" and xo and yo and len(x.terms) * len(y.terms) > 40:
+                continue
+            if kind != "bin" and xo and yo and x is y:
+                continue                                       # x op= x: openfermion's own loop (external)
+            left = x if xo else y
+            method = "%s/%s%s" % (label[kind_of(left)], {"bin": "" if xo else "r", "iop": "i", "idiv": "i"}[kind],
+                                  "truediv" if kind == "idiv" else o.lower())
+            snaps = [qsnap(q) for q in store]
+            shared_before = {(id(a_), id(b_)) for a_ in store for b_ in store if a_ is not b_ and a_.terms is b_.terms}
+            ix = next((k for k, q in enumerate(store) if q is x), None)
+            iy = next((k for k, q in enumerate(store) if q is y), None)
+            ex = {t: v for t, v in snaps[ix]} if xo else frac2(x)
+            ey = {t: v for t, v in snaps[iy]} if yo else frac2(y)
+            if kind == "idiv":
+                ey = (Fraction(1, 2), Fraction(0))
+            expect = ref_qbinop(o, ex, ey)
+            desc = "%s %s %s" % ("#%d" % ix if xo else repr(x).replace(" ", ""), {"bin": o, "iop": o + "=", "idiv": "/="}[kind],
+                                 "#%d" % iy if yo else repr(y).replace(" ", ""))
+            trace.append(desc)
+            replay_ = {"kind": "qubit-chain", "objects": spec, "trace": list(trace)}
+            try:
+                if kind == "bin":
+                    res = x + y if o == "Add" else (x - y if o == "Sub" else x * y)
+                elif kind == "idiv":
+                    res = x
+                    res /= 2
+                else:
+                    res = x
+                    if o == "Add":
+                        res += y
+                    elif o == "Sub":
+                        res -= y
+                    else:
+                        res *= y
+            except TypeError as e:
+                # openfermion's type rule: an operator operand must be an instance of the left operand's class;
+                # Tangelo documents only QubitHamiltonian += / + plain operator as an exception to it
+                ok_by_rule = (not (xo and yo)) or isinstance(y, type(x)) or \
+                    (isinstance(x, QH) and o == "Add" and isinstance(y, of.QubitOperator))
+                if ok_by_rule:
+                    ck.violation("C16/%s/exception/TypeError" % method, "%s raised %r (objects %s)" % (desc, e, spec), replay_)
+                else:
+                    ck.notes["qubit_type_rule_skips"] = ck.notes.get("qubit_type_rule_skips", 0) + 1
+                trace.pop()
+                res = None
+            except Exception as e:
+                ck.violation("C16/%s/exception/%s" % (method, type(e).__name__), "%s raised %r (objects %s)" % (desc, e, spec), replay_)
+                res = None
+            if res is not None:
+                if not all(num_ok(v) for v in res.terms.values()):
+                    break
+                if nz({t: frac2(v) for t, v in res.terms.items()}) != expect:
+                    ck.violation("C16/%s/wrong-value" % method, "%s gives %s, algebraic result %s (objects %s, steps %s)" % (
+                        desc, canon_qterms(res.terms), expect, spec, trace), replay_)
+                if not any(res is q for q in store):
+                    store.append(res)
+                    results.add(id(res))
+                if kind != "bin" and id(res) in results:
+                    nontriv = True
+            # every live object except the left operand of an in-place operation is unchanged
+            for k, sn in enumerate(snaps):
+                if kind != "bin" and store[k] is x:
+                    continue
+                if qsnap(store[k]) != sn:
+                    role = "operand" if (store[k] is x or store[k] is y) else "bystander"
+                    ck.violation("C16/%s/%s-mutated" % (method, role),
+                                 "%s changed object #%d (%s): %s -> %s (objects %s, steps %s)" % (
+                                     desc, k, role, sn, qsnap(store[k]), spec, trace), replay_)
+            for a_ in range(len(store)):
+                for b_ in range(a_ + 1, len(store)):
+                    if store[a_].terms is store[b_].terms and (id(store[a_]), id(store[b_])) not in shared_before:
+                        ck.violation("C16/%s/terms-dictionary-shared" % method,
+                                     "after %s objects #%d and #%d share one terms dictionary (objects %s, steps %s)" % (
+                                         desc, a_, b_, spec, trace), replay_)
+        ck.case("qubit-chains", json.dumps([spec, trace]), nontrivial=nontriv, sample={"objects": spec, "steps": trace},
+                tags=[t.split()[1] for t in trace] + ["+".join(fam)])
+
+
+# ------------------------------------------------------------------------------------------ do_commute
+def all_words(nq):
+    import itertools
+    out = []
+    for letters in itertools.product("IXYZ", repeat=nq):
+        out.append(tuple((q, p) for q, p in enumerate(letters) if p != "I"))
+    return out
+
+
+def run_commute_stream(ck, n, variants):
+    """do_commute in both modes with multi-word operands, word by word against an independent reference and
+    against openfermion's symbolic commutator; exhaustive over 2 qubits in the thorough tier."""
+    import itertools
+    from tangelo.toolboxes.operators import QubitOperator as TQ
+    from tangelo.toolboxes.operators.multiformoperator import MultiformOperator as MF, do_commute
+    rng = ck.rng
+    ck.stream("do-commute", "do_commute(A, B) and do_commute(A, B, term_resolved=True): A with 1-3 words, B with 2-5 distinct "
+              "words on 2-4 qubits with overlapping supports (random), all single words A x all pairs of words B on 2 qubits "
+              "(exhaustive in thorough, sampled in quick); each entry against the word-by-word reference (cross-checked with "
+              "openfermion symbolic commutators) and the Coq model; non-trivial = some word of A anticommutes with an even "
+              "non-zero number of words of B, or with some but not all")
+    sym_cache = {}
+
+    def sym_commute(w1, w2):
+        key = (w1, w2)
+        if key not in sym_cache:
+            a, b = TQ(w1, 1.0), TQ(w2, 1.0)
+            d = a * b - b * a
+            sym_cache[key] = all(abs(v) == 0 for v in d.terms.values())
+        return sym_cache[key]
+    cases = []
+    w2 = all_words(2)
+    sweep = [(2, [a], list(b)) for a in w2 for b in itertools.combinations(w2, 2)]
+    if ck.tier == "quick":
+        sweep = rng.sample(sweep, 250)
+    else:
+        ck.notes["do_commute_exhaustive"] = "all 16 single words A x all 120 pairs of distinct words B on 2 qubits (1920 cases)"
+        sweep += [(2, list(a), list(b)) for a in rng.sample(list(itertools.combinations(w2, 2)), 60)
+                  for b in rng.sample(list(itertools.combinations(w2, 3)), 12)]
+    cases.extend(sweep)
+    for _ in range(n):
+        nq = rng.randint(2, 4)
+        pool = all_words(nq) if nq <= 3 else None
+
+        def word():
+            if pool is not None:
+                return rng.choice(pool)
+            return tuple((q, rng.choice("XYZ")) for q in range(nq) if rng.random() < 0.7)
+        A = []
+        while len(A) < rng.randint(1, 3):
+            w = word()
+            if w not in A:
+                A.append(w)
+        B = []
+        nb = rng.randint(2, 5)
+        while len(B) < nb:
+            w = word()
+            if w not in B:
+                B.append(w)
+        cases.append((nq, A, B))
+    exprs, impl, meta = [], [], []
+    for nq, A, B in cases:
+        fa = {w: make_scalar(rand_scalar(rng, allow_zero=False)[:4] + ["complex"]) for w in A}
+        fb = {w: make_scalar(rand_scalar(rng, allow_zero=False)[:4] + ["complex"]) for w in B}
+        case = {"kind": "commute", "n_qubits": nq, "a": canon_qterms(fa), "b": canon_qterms(fb),
+                "A_words": [[list(f) for f in w] for w in A], "B_words": [[list(f) for f in w] for w in B]}
+        truth = []
+        for a in A:
+            row = [ref_words_commute(a, b) for b in B]
+            for b, r in zip(B, row):
+                if sym_commute(a, b) != r:
+                    ck.violation("C16/harness/commutation-reference", "reference and openfermion disagree on %s, %s" % (a, b), case,
+                                 found_input=False)
+            truth.append(row)
+        want_terms = [all(r) for r in truth]
+        want_all = all(want_terms)
+        MA, MB = MF.from_qubitop(mk_qop(TQ, fa), nq), MF.from_qubitop(mk_qop(TQ, fb), nq)
+        order_a = list(MA.terms)            # row order of the array form
+        try:
+            c_all = bool(do_commute(MA, MB))
+            c_terms = [bool(x) for x in do_commute(MA, MB, term_resolved=True)]
+        except Exception as e:
+            ck.violation("C16/do_commute/exception/%s" % type(e).__name__, "do_commute raised %r on A=%s B=%s" % (e, case["a"], case["b"]), case)
+            continue
+        want_rows = [want_terms[A.index(w)] for w in order_a]
+        got = ("T" if c_all else "F") + " " + "".join("T" if x else "F" for x in c_terms)
+        if c_terms != want_rows:
+            k = next(i for i in range(len(want_rows)) if c_terms[i] != want_rows[i])
+            w = order_a[k]
+            n_anti = sum(1 for b in B if not ref_words_commute(w, b))
+            ck.violation("C16/do_commute/term-resolved/wrong",
+                         "do_commute(A, B, term_resolved=True)[%d] = %s for the word %s of A=%s, which anticommutes with %d of the %d "
+                         "words of B=%s" % (k, c_terms[k], show_word(w), case["a"], n_anti, len(B), case["b"]), case)
+        if c_all != want_all:
+            if c_all:
+                ck.violation("C16/do_commute/operator-level/true-although-a-term-pair-anticommutes",
+                             "do_commute(A, B) is True for A=%s B=%s although some pair of words anticommutes" % (case["a"], case["b"]), case)
+            else:
+                ck.violation("C16/do_commute/operator-level/false-for-termwise-commuting-operators",
+                             "do_commute(A, B) is False for A=%s B=%s although every pair of words commutes" % (case["a"], case["b"]), case)
+        rowsA = coq_list([coq_list(["%d%%N" % int(c) for c in row]) for row in MA.integer])
+        rowsB = coq_list([coq_list(["%d%%N" % int(c) for c in row]) for row in MB.integer])
+        exprs.append("show_bool (%s %s %s) ++ \" \" ++ show_bools (do_commute_terms %s %s)" % (
+            "do_commute_asis" if variants["do_commute"] else "do_commute_repaired", rowsA, rowsB, rowsA, rowsB))
+        impl.append(got)
+        meta.append(case)
+        counts = [sum(1 for x in r if not x) for r in truth]
+        ck.case("do-commute", json.dumps([nq, case["a"], case["b"]]),
+                nontrivial=any((c > 0 and c % 2 == 0) or (0 < c < len(B)) for c in counts),
+                sample=dict(case, result=got), tags=["nq=%d" % nq, "|A|=%d" % len(A), "|B|=%d" % len(B)])
+    model = ck.coq_eval("commute", PREAMBLE, exprs, shard=400)
+    for m, g, case in zip(model, impl, meta):
+        if m != g:
+            ck.violation("C16/correspondence/multiform/do_commute",
+                         "do_commute: implementation %s, model (%s variant) %s (A=%s B=%s)" % (
+                             g, "as-written" if variants["do_commute"] else "repaired", m, case["a"], case["b"]),
+                         dict(case, impl=g, model=m), found_input=False)
+
+
 # ------------------------------------------------------------------------------------------ array form
 def show_mf(integer, factors):
     return "{" + "; ".join("%s:%s" % ("".join(str(int(c)) for c in row), show_num(f)) for row, f in zip(integer, factors)) + "}"
@@ -781,14 +1134,20 @@ def run(ck):
                       "array form: operands of a product / commutation test have the same number of qubits",
                       "QubitHamiltonian - / * with a plain QubitOperator raise TypeError inside openfermion (type rule of "
                       "SymbolicOperator); only += , + and == are documented by Tangelo and checked"]
-    try:
-        t = multiform_tables.extract(REPO)
-        ck.write_gen("MultiformTables", multiform_tables.emit(t))
-    except TranslateError as e:
-        ck.violation("C16/translator/multiform_tables", "translator no longer recognises the source: %s" % e,
-                     {"kind": "translator", "error": str(e)}, found_input=False)
-        return
-    ck.notes["regenerated"] = {"prod_function": t["prod_name"], "do_commute_reduction": t["commute_reduction"]}
+    t, terrs = multiform_tables.extract_lenient(REPO)
+    for sec, msg in terrs:
+        # fail closed: the section is reported; the search continues with the last known good values of that
+        # section so that a concrete failing input can still be found
+        ck.violation("C16/translator/multiform_tables/%s" % sec,
+                     "translator no longer recognises %s in multiformoperator.py: %s" % (sec, msg),
+                     {"kind": "translator", "section": sec, "error": msg}, found_input=False)
+    fallback = [sec for sec, _ in terrs]
+    ck.write_gen("MultiformTables", multiform_tables.emit(t, fallback))
+    ck.notes["regenerated"] = {"prod_function": t["prod_name"], "do_commute_reduction": t["commute_reduction"],
+                               "fallback_sections": fallback,
+                               "note": ("sections %s could not be regenerated: the table obligations and the model used for the "
+                                        "correspondence rest on LAST KNOWN GOOD values for them and say nothing about the current "
+                                        "source; only the implementation-only oracles do" % fallback) if fallback else "all sections regenerated"}
     res = ck.prove()
     if not res.ok:
         ck.proof_violation(res)
@@ -800,7 +1159,7 @@ def run(ck):
         return
     variants = probes(ck)
     ck.notes["model_variants"] = {k: ("as-written" if v else "repaired") for k, v in variants.items()}
-    if (t["commute_reduction"] == "all") != variants["do_commute"]:
+    if "do_commute" not in fallback and (t["commute_reduction"] == "all") != variants["do_commute"]:
         ck.violation("C16/translator/do_commute-reduction", "the regenerated reduction (%s) and the probe disagree" % t["commute_reduction"],
                      {"kind": "translator"}, found_input=False)
 
@@ -824,7 +1183,7 @@ def run(ck):
         used, reuse = set(), False
         for o in ops:
             idx = [v[1] for v in o[2:4] if isinstance(v, list) and v and v[0] == "obj"] if o[0] == "bin" else \
-                ([o[2]] + ([o[3][1]] if o[3][0] == "obj" else []) if o[0] == "iop" else ([o[1]] if o[0] in ("neg", "half") else []))
+                ([o[2]] + ([o[3][1]] if o[3][0] == "obj" else []) if o[0] == "iop" else ([o[1]] if o[0] in ("neg", "half", "idiv") else []))
             if any(i in used for i in idx):
                 reuse = True
             used.update(idx)
@@ -849,7 +1208,9 @@ def run(ck):
                              sa[k][:500] if k < len(sa) else None, sb[k][:500] if k < len(sb) else None),
                          {"kind": "chain", "ops": ops, "step": k}, found_input=False)
     run_qubit_stream(ck, 200 if quick else 3000, variants)
+    run_qubit_chains(ck, 250 if quick else 4000)
     run_multiform_stream(ck, 150 if quick else 2500, variants)
+    run_commute_stream(ck, 250 if quick else 3000, variants)
 
 
 def replay(data):
@@ -872,5 +1233,18 @@ def replay(data):
         c = _C()
         probes(c)
         return 1 if data.get("signature") in c.vs else 0
+    if r.get("kind") == "commute" and "A_words" in r:
+        from tangelo.toolboxes.operators import QubitOperator as TQ
+        from tangelo.toolboxes.operators.multiformoperator import MultiformOperator as MF, do_commute
+        A = [tuple((int(q), p) for q, p in w) for w in r["A_words"]]
+        B = [tuple((int(q), p) for q, p in w) for w in r["B_words"]]
+        MA = MF.from_qubitop(mk_qop(TQ, {w: 1.0 for w in A}), r["n_qubits"])
+        MB = MF.from_qubitop(mk_qop(TQ, {w: 1.0 for w in B}), r["n_qubits"])
+        want = [all(ref_words_commute(a, b) for b in B) for a in list(MA.terms)]
+        got_terms = [bool(x) for x in do_commute(MA, MB, term_resolved=True)]
+        got_all = bool(do_commute(MA, MB))
+        print("A =", A, "B =", B)
+        print("term_resolved: got", got_terms, "expected", want, "| operator level: got", got_all, "expected", all(want))
+        return 1 if (got_terms != want or got_all != all(want)) else 0
     print(json.dumps(r, indent=1)[:4000])
     return 1
